@@ -102,6 +102,7 @@ func checkC10(c *Ctx) {
 	ruleConfigOnlyFromParser(c, pf, "R10.6")
 	// R10.7 a value that fails to convert is a rejection, never a silent fallback to something the file does not say
 	ruleErrorsReturnedAs(c, pf.regionFuncs(), "R10.7", nil)
+	c.importRules(readIsParseRules, []string{"R12.6"}, "R10.10") // the configuration is built from the complete content of the file
 	c.MinCount("R10.7", 8)
 	// R10.1c presence must be representable: the optional *_negative fields are pointers in the decoded struct (with a plain
 	// value "cc_negative = 0" and "no cc_negative" are the same thing)
@@ -176,6 +177,22 @@ func sourcesOf(pf *parserFacts, v ssa.Value, leaves map[*types.Var]string) (data
 		saved := curFn
 		curFn = fn
 		defer func() { curFn = saved }()
+		// `optional != nil` is the PRESENCE of the optional field, not its value: a control source
+		if bo, ok := v.(*ssa.BinOp); ok && (bo.Op == token.EQL || bo.Op == token.NEQ) {
+			isNilK := func(y ssa.Value) bool { k, ok := y.(*ssa.Const); return ok && k.Value == nil }
+			var other ssa.Value
+			if isNilK(bo.Y) {
+				other = bo.X
+			} else if isNilK(bo.X) {
+				other = bo.Y
+			}
+			if other != nil {
+				if _, isPtr := other.Type().Underlying().(*types.Pointer); isPtr {
+					collectTerm(vw.Term(other), ctl)
+					return
+				}
+			}
+		}
 		collectTerm(vw.Term(v), data)
 		switch x := v.(type) {
 		case *ssa.Phi:
@@ -829,6 +846,56 @@ func ruleUnknownFields(c *Ctx, pf *parserFacts) {
 		c.Undec("R10.4", key, c.P.Pos(pf.fn.Pos()), "no Decode call of the TOML decoder found in ParseData (directly or through a helper)")
 		return
 	}
+	// R10.11 the decode target is a fresh zero value of this very call: the address of a local variable that nothing was
+	// stored into before (go-toml merges into what is already there: a target taken from a pool, a package-level variable or
+	// a parameter carries the previous file's sections into a file that omits them)
+	{
+		var tgt ssa.Value
+		for _, a := range decodeSite.Call.Args {
+			if mi, ok := a.(*ssa.MakeInterface); ok {
+				if _, isPtr := mi.X.Type().Underlying().(*types.Pointer); isPtr {
+					tgt = mi.X
+				}
+			}
+		}
+		tkey := "config.ParseData/decode-target-is-a-fresh-zero-value"
+		tpos := c.P.Pos(decodeSite.Pos())
+		al, isAlloc := tgt.(*ssa.Alloc)
+		switch {
+		case tgt == nil:
+			c.Undec("R10.11", tkey, tpos, "the value handed to the decoder was not identified")
+		case !isAlloc:
+			c.Bad("R10.11", tkey, tpos, "the decoder fills in "+pf.view(decodeSite.Parent()).Term(tgt).String()+", which is not a local variable of this call (a pooled, shared or passed-in object): sections the file omits keep the values of the previously decoded file")
+		default:
+			dirty := ""
+			for _, r := range *al.Referrers() {
+				in, ok := r.(ssa.Instruction)
+				if !ok || in == ssa.Instruction(decodeSite) {
+					continue
+				}
+				before := in.Block() == decodeSite.Block() && instrBefore(in, decodeSite) || in.Block() != decodeSite.Block() && in.Block().Dominates(decodeSite.Block())
+				if !before {
+					continue
+				}
+				switch x := r.(type) {
+				case *ssa.Store:
+					if x.Addr == ssa.Value(al) {
+						if k, isK := x.Val.(*ssa.Const); !isK || !isZeroConst(k) {
+							dirty = "it is assigned " + pf.view(decodeSite.Parent()).Term(x.Val).String() + " before decoding"
+						}
+					}
+				case *ssa.MakeInterface, *ssa.DebugRef:
+				case *ssa.FieldAddr, *ssa.IndexAddr:
+					for _, rr := range *x.(ssa.Value).Referrers() {
+						if st, ok := rr.(*ssa.Store); ok && st.Addr == x.(ssa.Value) {
+							dirty = "a component of it is written before decoding"
+						}
+					}
+				}
+			}
+			c.Check(dirty == "", "R10.11", tkey, tpos, "the decoder fills in a local variable that is still zero", "the decode target is not a fresh zero value: "+dirty)
+		}
+	}
 	ok := disallow != nil && disallow.Call.Args[0] == decoder && (disallow.Block() == decodeSite.Block() && instrBefore(disallow, decodeSite) || disallow.Block() != decodeSite.Block() && disallow.Block().Dominates(decodeSite.Block()))
 	c.Check(ok, "R10.4", key, c.P.Pos(decodeSite.Pos()), "called on the same decoder, on every path before Decode", "Decode is not preceded by DisallowUnknownFields on the same decoder: unknown fields in a file are silently ignored")
 }
@@ -1087,4 +1154,13 @@ func reachesAvoidingFromStore(from *ssa.BasicBlock, targets []*ssa.BasicBlock, c
 		}
 	}
 	return false
+}
+
+// decodeTargetRules: R10.4/R10.11 for import by C12 (one file's content must not leak into the next one).
+func decodeTargetRules(c *Ctx) {
+	pf := newParserFacts(c)
+	if pf.err != nil {
+		return
+	}
+	ruleUnknownFields(c, pf)
 }
